@@ -41,6 +41,24 @@ fn wire_epoch() -> EpochNumberWithFraction { EpochNumberWithFraction::from_full_
 #[kani::stub(log::__private_api::log, stub_log)]
 #[kani::stub(numext_fixed_uint::U256::_div_with_rem, stub_div_with_rem)]
 #[kani::stub(ckb_types::utilities::compact_to_difficulty, stub_c2d)]
+fn vtd_no_panic_wide() {
+    // as vtd_no_panic, with ARBITRARY 256-bit block difficulties (beyond what proof-of-work can reach)
+    let d1 = any_u256(); let d2 = any_u256();
+    let c0: u32 = kani::any(); let cn: u32 = kani::any();
+    set_table(c0, &d1, &d2);
+    let se = wire_epoch(); let ee = wire_epoch();
+    kani::assume(ee.number().wrapping_sub(se.number()) <= 3 || se.number().wrapping_sub(ee.number()) <= 3);
+    let t0 = any_u256(); let t1 = any_u256();
+    let _ = verify_total_difficulty(se, c0, &t0, ee, cn, &t1, 2);
+    let _ = verify_tau(se, c0, ee, cn, 2);
+}
+
+#[kani::proof]
+#[kani::unwind(5)]
+#[kani::stub(alloc::fmt::format, stub_format)]
+#[kani::stub(log::__private_api::log, stub_log)]
+#[kani::stub(numext_fixed_uint::U256::_div_with_rem, stub_div_with_rem)]
+#[kani::stub(ckb_types::utilities::compact_to_difficulty, stub_c2d)]
 fn vtd_no_panic() {
     let d1 = pow_u256(); let d2 = pow_u256();
     let c0: u32 = kani::any(); let cn: u32 = kani::any();
@@ -130,7 +148,17 @@ fn split_kernels() {
 #[kani::stub(log::__private_api::log, stub_log)]
 #[kani::stub(numext_fixed_uint::U256::_div_with_rem, stub_div_with_rem)]
 #[kani::stub(ckb_types::utilities::compact_to_difficulty, stub_c2d)]
-fn vtd_sound() {
+fn vtd_sound_q() { vtd_sound_body::<2>(); }
+
+#[kani::proof]
+#[kani::unwind(5)]
+#[kani::stub(alloc::fmt::format, stub_format)]
+#[kani::stub(log::__private_api::log, stub_log)]
+#[kani::stub(numext_fixed_uint::U256::_div_with_rem, stub_div_with_rem)]
+#[kani::stub(ckb_types::utilities::compact_to_difficulty, stub_c2d)]
+fn vtd_sound() { vtd_sound_body::<3>(); }
+
+fn vtd_sound_body<const MAXN: u64>() {
     // block difficulties < 2^64 (stated bound; the specification's own products then cannot overflow)
     let a: u64 = kani::any(); let b: u64 = kani::any();
     let b0 = U256([a, 0, 0, 0]); let bn = U256([b, 0, 0, 0]);
@@ -140,7 +168,7 @@ fn vtd_sound() {
     let se = wire_epoch(); let ee = wire_epoch();
     // well-formed, ordered end points (ill-formed ones are the subject of vtd_no_panic)
     kani::assume(se.is_well_formed() && ee.is_well_formed());
-    kani::assume(ee.number() >= se.number() && ee.number() - se.number() <= 3);
+    kani::assume(ee.number() >= se.number() && ee.number() - se.number() <= MAXN);
     kani::assume(ee.number() > se.number() || ee.index() >= se.index());
     let t0 = any_u256(); let t1 = any_u256();
     let r = verify_total_difficulty(se, c0, &t0, ee, cn, &t1, 2);
@@ -170,7 +198,7 @@ fn vtd_sound() {
                 while i < n { up = up.saturating_mul(&two); dn = dn >> 1u8; hi = hi.saturating_add(&up); lo = lo.saturating_add(&dn); i += 1; }
                 assert!(mid <= hi, "SPEC total difficulty: growth faster than tau per epoch accepted");
                 assert!(mid >= lo, "SPEC total difficulty: shrinkage faster than tau per epoch accepted");
-                kani::cover!(n == 3, "three switches accepted");
+                kani::cover!(n == MAXN, "maximal number of switches accepted");
             }
         }
         kani::cover!(n == 1, "one switch accepted");
